@@ -485,11 +485,18 @@ class MatrixSum(Expression):
     def jacobian_row(self, variables: list[Variable]) -> list[Expression] | None:
         """Return Jacobian row in O(n).
 
-        For MatrixSum(X), gradient w.r.t. X[i,j] is 1 for all elements in X,
-        0 for all other variables.
+        For MatrixSum(X) over a MatrixVariable, the gradient w.r.t. a variable
+        is the number of entries of X holding it (1, or 2 for an off-diagonal
+        entry of a symmetric matrix), 0 for all other variables. Sums over a
+        MatrixExpression are left to the general autodiff path.
         """
-        my_vars = self.matrix.get_variables()
-        return [Constant(1.0) if var in my_vars else Constant(0.0) for var in variables]
+        if not isinstance(self.matrix, MatrixVariable):
+            return None
+        counts: dict[Variable, int] = {}
+        for row in self.matrix._variables:
+            for var in row:
+                counts[var] = counts.get(var, 0) + 1
+        return [Constant(float(counts.get(var, 0))) for var in variables]
 
     def __repr__(self) -> str:
         if isinstance(self.matrix, MatrixVariable):
